@@ -19,7 +19,7 @@ func init() {
 			aliasRuleFiltered(ruleC17Dep, "C17.dep", "C08.selection", 1, func(o Oblig) bool { return strings.Contains(o.Key, "selection by NewestInSet") }),
 			aliasRuleFiltered(ruleC06Ctor, "C06.ctor", "C08.inside", 2, func(o Oblig) bool {
 				return strings.Contains(o.Key, "ResolveRelative") && strings.Contains(o.Key, "subPath")
-			}), ruleDiagsReachResult("C08.diagresult"), ruleValueReceiverWrites("C08.valuerecv", "/sourcebundle")},
+			}), ruleDiagsReachResult("C08.diagresult"), aliasRule(ruleC06SubRaw, "C06.subraw", "C08.subraw", 1), ruleValueReceiverWrites("C08.valuerecv", "/sourcebundle")},
 		NotDecided: []string{
 			"transitive closure over arbitrary dependency graphs and the content of fetched files (run-time facts)",
 			"that looked-up paths exist on disk",
@@ -28,7 +28,9 @@ func init() {
 	register("C09", &propDef{
 		Title: "A bundle survives being re-opened and archived",
 		Rules: []func(*Checker){ruleC09Fields, ruleC09Archive, ruleChecksum("C09.checksum"), ruleC06ManifestAs("C09.addrs"),
-			ruleRootSymmetric("C09.symmetric"), ruleLinkPrecise("C09.linkprecise"), ruleC09Answers, ruleLocalMemo("C09.localmemo"), ruleGuardOwnField("C09.metaguard"), ruleMetaVerbatim("C09.metaverbatim"), ruleExtractOnlyUnpacks("C09.extractonly"), aliasRule(ruleC01Sinks, "C01.sinks", "C09.entrypaths", 5), aliasRuleFiltered(ruleC01Walk, "C01.walk", "C09.walked", 1, func(o Oblig) bool { return strings.Contains(o.Key, "below the destination") }), ruleRestore("C09.restore"), ruleMeta("C09.meta"), ruleC04Accept2("C09.links"), ruleEntryNameAsSpelled("C09.namekept"), ruleNameAgreement("C09.names", "sourcebundle"), aliasRule(ruleC02Omit, "C02.omit", "C09.omit", 3), ruleRefusalsOfPack("C09.packrefusals"), aliasRuleFiltered(ruleBuilderAbsDir("C10.absdir"), "C10.absdir", "C09.absdir", 1, func(o Oblig) bool { return strings.Contains(o.Key, "rootDir") }),
+			ruleRootSymmetric("C09.symmetric"), ruleLinkPrecise("C09.linkprecise"), ruleC09Answers, ruleLocalMemo("C09.localmemo"), ruleGuardOwnField("C09.metaguard"), ruleMetaVerbatim("C09.metaverbatim"), ruleExtractOnlyUnpacks("C09.extractonly"), aliasRule(ruleC01Sinks, "C01.sinks", "C09.entrypaths", 5), aliasRuleFiltered(ruleC01Guards, "C01.guards", "C09.nametest", 1, func(o Oblig) bool {
+				return strings.Contains(o.Key, "containment") || strings.Contains(o.Key, "success return")
+			}), aliasRuleFiltered(ruleC01Walk, "C01.walk", "C09.walked", 1, func(o Oblig) bool { return strings.Contains(o.Key, "below the destination") }), ruleRestore("C09.restore"), ruleMeta("C09.meta"), ruleC04Accept2("C09.links"), ruleEntryNameAsSpelled("C09.namekept"), ruleNameAgreement("C09.names", "sourcebundle"), aliasRule(ruleC02Omit, "C02.omit", "C09.omit", 3), ruleRefusalsOfPack("C09.packrefusals"), aliasRuleFiltered(ruleBuilderAbsDir("C10.absdir"), "C10.absdir", "C09.absdir", 1, func(o Oblig) bool { return strings.Contains(o.Key, "rootDir") }),
 			aliasRuleFiltered(ruleC02LinkTarget, "C02.linktarget", "C09.linktarget", 1, func(o Oblig) bool { return strings.Contains(o.Key, "Unpack") }),
 			// extracting the archive of a bundle skips no entry it has not looked at: an entry skipped by its header format is a file of the bundle that is missing afterwards
 			ruleBundleFrozen("C09.frozen"),
@@ -1371,6 +1373,12 @@ func ruleC17Dep(c *Checker) {
 					for _, vb := range verBases {
 						if canon(fa.X) == vb {
 							depOK = true
+						}
+						// `infos[i].Version` and `infos[i].Deprecation`: two index expressions of one element
+						if a, ok := canon(fa.X).(*ssa.IndexAddr); ok {
+							if b, ok := vb.(*ssa.IndexAddr); ok && sameSeq(a.X, b.X) && canon(a.Index) == canon(b.Index) {
+								depOK = true
+							}
 						}
 					}
 				})
